@@ -871,7 +871,7 @@ def sat_runs(df, meta):
     # continuous_bound (default 0.0005) deliberately moves the extreme outcomes inwards before anything is fitted; the Coq
     # rows carry the outcomes as recorded, so (as in C01 / C06) the bound is set to a value nothing reaches.  The
     # metamorphic part above runs TMLE with its default bound.
-    t = TMLE(df, 'A', 'Y', continuous_bound=1e-10)
+    t = TMLE(df, 'A', 'Y', continuous_bound=1e-10) if cont else TMLE(df, 'A', 'Y')
     t.exposure_model(satL, print_results=False)
     t.outcome_model(satAL, print_results=False)
     t.fit()
